@@ -171,8 +171,62 @@ class Curve:
         return (x3, y3)
 
     def mul(self, P, k):
+        """[k]P, computed in Jacobian coordinates (general a) with one final inversion"""
         if k < 0:
             return self.mul(self.neg(P), -k)
+        if P is None or k == 0:
+            return None
+        K = self.K
+        m, sq = K.mul, (lambda t: K.mul(t, t))
+        X, Y, Z = None, None, None          # accumulator (None = identity)
+        px, py = P
+        for bit in bin(k)[2:]:
+            if X is not None:
+                # doubling, general a:  dbl-2007-bl style
+                if K.is_zero(Y):
+                    X = None
+                else:
+                    XX, YY, ZZ = sq(X), sq(Y), sq(Z)
+                    S = m(K.from_int(4), m(X, YY))
+                    M = K.add(m(K.from_int(3), XX), m(self.a, sq(ZZ)))
+                    X3 = K.sub(sq(M), K.add(S, S))
+                    Y3 = K.sub(m(M, K.sub(S, X3)), m(K.from_int(8), sq(YY)))
+                    Z3 = m(K.add(Y, Y), Z)
+                    X, Y, Z = X3, Y3, Z3
+            if bit == "1":
+                if X is None:
+                    X, Y, Z = px, py, K.one
+                else:
+                    ZZ = sq(Z)
+                    U2, S2 = m(px, ZZ), m(py, m(ZZ, Z))
+                    if U2 == X:
+                        if S2 == Y:
+                            # doubling of the accumulator == adding P to itself
+                            A = self.add((px, py), (px, py))
+                            if A is None:
+                                X = None
+                            else:
+                                X, Y, Z = A[0], A[1], K.one
+                        else:
+                            X = None
+                    else:
+                        H, Rr = K.sub(U2, X), K.sub(S2, Y)
+                        HH = sq(H)
+                        HHH = m(H, HH)
+                        V = m(X, HH)
+                        X3 = K.sub(K.sub(sq(Rr), HHH), K.add(V, V))
+                        Y3 = K.sub(m(Rr, K.sub(V, X3)), m(Y, HHH))
+                        Z3 = m(Z, H)
+                        X, Y, Z = X3, Y3, Z3
+        if X is None or K.is_zero(Z):
+            return None
+        zi = K.inv(Z)
+        zi2 = sq(zi)
+        return (m(X, zi2), m(Y, m(zi2, zi)))
+
+    def mul_slow(self, P, k):
+        if k < 0:
+            return self.mul_slow(self.neg(P), -k)
         Rr = None
         for bit in bin(k)[2:] if k else "":
             Rr = self.add(Rr, Rr)
@@ -260,12 +314,20 @@ def factor_small(n, bound=1 << 22):
 def point_of_order(C, cof_times_r, ell, rng, tries=64):
     """a point of exact prime order ell on C (group order cof_times_r, ell | order)"""
     assert cof_times_r % ell == 0
-    m = cof_times_r // ell
+    m = cof_times_r
+    while m % ell == 0:
+        m //= ell
     for _ in range(tries):
-        P = C.mul(C.random_point(rng), m)
-        if P is not None:
-            assert C.mul(P, ell) is None
-            return P
+        P = C.mul(C.random_point(rng), m)      # in the ell-Sylow subgroup
+        if P is None:
+            continue
+        while True:
+            Pn = C.mul(P, ell)
+            if Pn is None:
+                break
+            P = Pn
+        assert C.mul(P, ell) is None and P is not None
+        return P
     raise RuntimeError("no point of order %d found" % ell)
 
 
